@@ -375,6 +375,14 @@ func (bc *buildCtx) realImpl(d *D) interface{} {
 			out[i] = []byte(s.S)
 		}
 		return out
+	case "strgs": // []fmt.Stringer: a container typed with a non-empty interface
+		out := make([]fmt.Stringer, len(d.Sub))
+		for i, s := range d.Sub {
+			if e, ok := bc.real(s).(fmt.Stringer); ok {
+				out[i] = e
+			}
+		}
+		return out
 	case "errs":
 		out := make([]error, len(d.Sub))
 		for i, s := range d.Sub {
@@ -647,6 +655,14 @@ func (bc *buildCtx) plain(d *D) interface{} {
 		return nil
 	case "slice":
 		return bc.plains(d.Sub)
+	case "strgs":
+		out := make([]fmt.Stringer, len(d.Sub))
+		for i, s := range d.Sub {
+			if e, ok := bc.plain(s).(fmt.Stringer); ok {
+				out[i] = e
+			}
+		}
+		return out
 	case "SVSlice":
 		return tSVSlice(bc.plains(d.Sub))
 	case "arr":
@@ -762,7 +778,7 @@ func (bc *buildCtx) twin(d *D, ctx int) interface{} {
 		return tSafeFmtTwin{d.Sub, bc, ctxNone}
 	case "SafeMsg":
 		return strTwin{string(d.S)} // printed as a safe string under the directive
-	case "slice":
+	case "slice", "strgs":
 		return bc.twins(d.Sub, ctx)
 	case "arr":
 		var a [2]interface{}
@@ -837,7 +853,7 @@ func (bc *buildCtx) twinSafe(d *D) interface{} {
 		return tSafeFmtTwin{d.Sub, bc, ctxSafe}
 	case "SafeMsg":
 		return strTwin{string(d.S)}
-	case "slice":
+	case "slice", "strgs":
 		return bc.twins(d.Sub, ctxSafe)
 	case "arr":
 		var a [2]interface{}
